@@ -562,6 +562,13 @@ def freshTokens : List String → List Event → Prop
   | iss, .sent _ _ :: rest => freshTokens iss rest
   | iss, .recv _ r :: rest => (∀ t ∈ tokensOf r, t ∉ iss) ∧ freshTokens (tokensOf r ++ iss) rest
 
+instance decFreshTokens : ∀ (iss : List String) (ev : List Event), Decidable (freshTokens iss ev)
+  | _, [] => isTrue trivial
+  | iss, .sent _ _ :: rest => decFreshTokens iss rest
+  | iss, .recv _ r :: rest =>
+    have := decFreshTokens (tokensOf r ++ iss) rest
+    inferInstanceAs (Decidable ((∀ t ∈ tokensOf r, t ∉ iss) ∧ freshTokens (tokensOf r ++ iss) rest))
+
 /-- On a trace that passes the scan, if the server never repeats a cursor then no cursor is sent
 twice. -/
 theorem scan_nodup : ∀ (ev : List Event) (l l' : Ledger),
